@@ -109,8 +109,10 @@ def container_scenario(ch, max_records=12, top="any", serial=True, logical=False
                 for i in range(60):
                     sc.metadata["key%03d" % i] = "välue" * (i % 5)
     if ch.chance(40):
-        # codec_compression_level is accepted for every codec ("if the codec supports it")
-        sc.level = ch.pick([0, 1, 6, 9, -1])
+        # codec_compression_level: only values the codec's own library accepts (today bzip2 and xz
+        # ignore the argument; a version that honours it must not be flagged for rejecting a level
+        # the codec does not have)
+        sc.level = ch.pick({"deflate": [0, 1, 6, 9, -1], "bzip2": [1, 6, 9], "xz": [0, 1, 6, 9]}.get(sc.codec, [1, 6, 9]))
     sc.parsed = ch.chance(40)
     return sc
 
